@@ -242,7 +242,7 @@ def run_config(cfg, rec):
 
 
 # ------------------------------------------------------------------------------------------------ float side
-def float_optimize(cfg, env, points=None, K=2, pick=None):
+def float_optimize(cfg, env, points=None, K=2, pick=None, jac_scale=1.0):
     from harness import pipeline as pl
     from glotaran.optimization.optimizer import Optimizer
 
@@ -254,7 +254,17 @@ def float_optimize(cfg, env, points=None, K=2, pick=None):
             scheme = pl.build_scheme(cfg, src)
             _, x0, lb_, ub_ = scheme.parameters.get_label_value_and_bounds_arrays(exclude_non_vary=True)
             pts = points or [np.asarray(x0, dtype=float) * (1.0 + 0.05 * (k + 1)) for k in range(K - 1)]
+            from_model = False
             if not points and pts:
+                # entries of the optimiser's trial points that the solver's counterexample fixes (clipped into the bounds)
+                for k in range(1, K):
+                    for i in range(len(x0)):
+                        v = env.get(f"X{k}_{i}") if isinstance(env, dict) and f"X{k}_{i}" in env.keys() else None
+                        if v is not None and np.isfinite(v) and abs(v) < 50:
+                            pts[k - 1] = np.array(pts[k - 1], dtype=float)
+                            pts[k - 1][i] = min(max(float(v), float(lb_[i])), float(ub_[i]))
+                            from_model = True
+            if not points and pts and not from_model:
                 # the last point sits on a bound where there is one (scipy then reports it in active_mask)
                 last = np.minimum(np.maximum(pts[-1], np.asarray(lb_, dtype=float)), np.asarray(ub_, dtype=float))
                 for i_ in range(len(last)):
@@ -266,6 +276,7 @@ def float_optimize(cfg, env, points=None, K=2, pick=None):
                         break
                 pts[-1] = last
             ls = optim.AdversarialLeastSquares(None, K=K, symbolic=False, points=pts, pick=pick)
+            ls.jac_scale = jac_scale  # small / large standard errors (both sides of the log-space comparison)
             with Patcher() as p2:
                 optim.install_optimizer_stubs(p2, None, src, ls, None)
                 opt = Optimizer(scheme, verbose=False)
@@ -283,9 +294,9 @@ def concrete(cfg, env):
     return {"n_res": int(res.number_of_residuals), "n_clp": int(res.number_of_clps), "dof": int(res.degrees_of_freedom)}
 
 
-def _check_float(cfg, env, pick=None):
+def _check_float(cfg, env, pick=None, jac_scale=1.0):
     try:
-        res, ls = float_optimize(cfg, env, K=cfg.get("K", 2), pick=pick)
+        res, ls = float_optimize(cfg, env, K=cfg.get("K", 2), pick=pick, jac_scale=jac_scale)
     except Exception as ex:  # noqa: BLE001
         return True, f"config {cfg['name']}: optimize/create_result raised {type(ex).__name__}: {ex}"
     n_data, n_clp, n_free = _dof(cfg)
@@ -341,8 +352,8 @@ def _check_float(cfg, env, pick=None):
 def replay(data):
     last = (False, "")
     for env in (c02.salted("r1"), c02.salted("r2"), c02.DefaultEnv(dict(data["env"]))):
-        for pick in (None, 0):  # the optimiser returns its last point / an earlier (better) point
-            v, d = _check_float(data["cfg"], env, pick=pick)
+        for pick, jsc in ((None, 1.0), (0, 1.0), (None, 1e3), (0, 1e-2)):  # last / an earlier point returned; Jacobian magnitudes
+            v, d = _check_float(data["cfg"], env, pick=pick, jac_scale=jsc)
             if v:
                 return v, d
             last = (v, d)
